@@ -1,3 +1,4 @@
+import F3.Proofs.SkelTieValidate
 import F3.Proofs.ValidatorGen2
 import F3.Proofs.ValidatorTwoStage
 set_option linter.unusedSimpArgs false
@@ -267,4 +268,21 @@ example : F3.Gen.Validate2.fullZeroKeyRules true true true false = 1 ∧
     F3.Gen.Validate2.fullZeroKeyRules false false true false = 0 := by decide
 
 end Regenerated2
+end F3.Props.C13
+
+namespace F3.Props.C13
+section Skeletons
+
+/-- **The Go functions this property's models mirror still have the statement structure the models were written
+against**: each regenerated skeleton (pre-order list of statement kinds, `tools/go2lean/skel.go`) equals the pinned
+expectation of `F3/Proofs/SkelTie*.lean`. An added early return, cap, loop or dropped branch in one of these functions
+breaks this obligation even when no regenerated *expression* changes. -/
+theorem code_structure_as_modelled :
+    F3.Gen.SkelValidate.skelValidateJustification = F3.SkelTie.SkelValidate.skelValidateJustificationExpected ∧
+    F3.Gen.SkelValidate.skelFullyValidate = F3.SkelTie.SkelValidate.skelFullyValidateExpected ∧
+    F3.Gen.SkelValidate.skelSuppEq = F3.SkelTie.SkelValidate.skelSuppEqExpected ∧
+    F3.Gen.SkelValidate.skelInferJustValue = F3.SkelTie.SkelValidate.skelInferJustValueExpected :=
+  ⟨F3.SkelTie.SkelValidate.skelValidateJustification_expected, F3.SkelTie.SkelValidate.skelFullyValidate_expected, F3.SkelTie.SkelValidate.skelSuppEq_expected, F3.SkelTie.SkelValidate.skelInferJustValue_expected⟩
+
+end Skeletons
 end F3.Props.C13
